@@ -28,6 +28,7 @@ Restatements of definitions (`fwCond_spec`, `bwCond_spec`, `default_rtols`, `equ
 All theorems hold over an arbitrary linearly ordered field `α` (ℚ for the executable model, ℝ for "real" concentrations).
 -/
 import ChemModel.Proofs.EqSolve
+import ChemModel.Proofs.EqSolveGenuine
 import ChemModel.Props.C07
 
 namespace ChemModel.C08
@@ -55,6 +56,11 @@ theorem sane_accepts_nan_defect_witness :
     resultIsSaneNan (α := ℚ) saneRtolDefault [[(1, 2), (8, 1)], [(0, 1), (1, 1)], [(0, -1), (1, 1), (8, 1)]] [1, 1 / 2, 0]
       [none, none, none] = .ok true := by
   constructor <;> decide +kernel
+
+/-- **source guard.**  The default tolerances as written in the current source (`_result_is_sane(..., rtol=1e-9)`,
+    `_fw_cond_factory(ri, rtol=1e-14)`; extracted by `tools/extract/eqsolve_defaults.py` on every run) are the documented ones.  A weakened
+    default reopens this obligation (and the `sane:default-*` / `fw:default-*` streams then produce the failing input). -/
+theorem default_rtols_guard : (saneRtolDefault : ℚ) = 1 / 10 ^ 9 ∧ (fwRtolDefault : ℚ) = 1 / 10 ^ 14 := default_rtols
 
 /-- **upper_bound_valid.** The bound of `upper_conc_bounds` is a genuine bound: with non-negative composition coefficients
     (charge excluded) and strictly positive ones for substance `i`, no non-negative state `y` that carries the same
@@ -174,6 +180,23 @@ theorem backward_condition_defined (small : α) (phases : List Nat) (r : Rxn) (x
   by_cases h : xi < small
   · simp [h, not_le.mpr h]
   · simp [h, not_lt.mp h]
+
+omit [IsStrictOrderedRing α] in
+/-- success characterisation of the other hypothesis of `precipitate_dichotomy` (`fwCond … = .ok on`): on a reaction whose single solid has a
+    non-zero coefficient the forward callback is defined as soon as `dissolved(x)` and the ion quotient of the dissolved state are, and it is the
+    comparison the docstring of `_fw_cond_factory` describes -/
+theorem forward_condition_defined (rtol : α) (phases : List Nat) (rxns : List Rxn) (r : Rxn) (k : α) (x d : List α)
+    (net : List Int) (s idx : Int) (q : α)
+    (hps : precipitateStoich phases r = .ok (net, s, idx)) (hs : s ≠ 0)
+    (hd : dissolved phases rxns x = .ok d) (hq : rxnQ phases r d = .ok q) :
+    fwCond rtol phases rxns r k x =
+      .ok (if 0 < s then decide (q * (1 + rtol) < k) else decide (k * (1 + rtol) < q)) := by
+  unfold fwCond
+  simp only [hps, hd, hq, bind, Except.bind, Nat.cast_one]
+  by_cases h1 : s > 0
+  · simp [h1, pure, Except.pure]
+  · have h2 : s < 0 := by omega
+    simp [h1, h2, pure, Except.pure]
 
 /-- `non_precip_rids(precipitates)`: the phase-transfer reactions whose flag (by position) is `False` -/
 theorem non_precip_rids_spec (phases : List Nat) (rxns : List Rxn) (precipitates : List Bool) (out : List Nat)
@@ -333,6 +356,77 @@ theorem residual_multi_zero_iff (rc c0 : List α) (stoich : List (List Int)) (K 
     obtain ⟨r, hr, rfl⟩ := List.getElem_of_mem hvm
     rw [hv r (by omega) (by omega) hr, hq r (by omega), sub_self]
 
+/-- **solve_bracket_keeps_nonneg.**  The bracket `brentq` really receives (`_solve_equilibrium_coord`: species with a zero coefficient are masked
+    out before `_get_rc_interval`) keeps EVERY concentration of the full system non-negative: reacting species start strictly positive, spectators
+    (coefficient 0, untouched by the reaction coordinate) only need `c0 ≥ 0`. -/
+theorem solve_bracket_keeps_nonneg (c0 : List α) (stoich : List Int) (lo up : α)
+    (h : solveBracket c0 stoich = .ok (lo, up))
+    (hact : ∀ j (hj : j < stoich.length) (hc : j < c0.length), stoich[j] ≠ 0 → 0 < c0[j])
+    (hspec : ∀ j (hj : j < stoich.length) (hc : j < c0.length), stoich[j] = 0 → 0 ≤ c0[j])
+    (rc : α) (hlo : lo ≤ rc) (hup : rc ≤ up) (j : Nat) (hj : j < stoich.length) (hc : j < c0.length) :
+    0 ≤ c0[j] + ((stoich[j] : Int) : α) * rc := by
+  unfold solveBracket at h
+  split_ifs at h with hlen
+  by_cases hz : stoich[j] = 0
+  · rw [hz]; simpa using hspec j hj hc hz
+  · set m := (List.zip stoich c0).filter fun p => p.1 ≠ 0 with hm
+    have hmem : (stoich[j], c0[j]) ∈ m := by
+      rw [hm, List.mem_filter]
+      refine ⟨?_, by simpa using hz⟩
+      rw [List.mem_iff_getElem]
+      exact ⟨j, by simp [hj, hc], by simp⟩
+    obtain ⟨i, hi, hget⟩ := List.getElem_of_mem hmem
+    have hpos : ∀ v ∈ m.map (·.2), 0 < v := by
+      intro v hv
+      obtain ⟨p, hp, rfl⟩ := List.mem_map.mp hv
+      have hp' := (List.mem_filter.mp hp)
+      obtain ⟨t, ht, hpt⟩ := List.getElem_of_mem hp'.1
+      have ht' : t < stoich.length ∧ t < c0.length := by simpa using ht
+      have : p = (stoich[t]'ht'.1, c0[t]'ht'.2) := by rw [← hpt]; simp
+      have hne : p.1 ≠ 0 := by simpa using hp'.2
+      rw [this] at hne ⊢
+      exact hact t ht'.1 ht'.2 hne
+    have := rc_interval_keeps_nonneg (m.map (·.1)) (m.map (·.2)) lo up h hpos rc hlo hup i (by simpa using hi) (by simpa using hi)
+    simpa [hget] using this
+
+/-- success characterisation: `_solve_equilibrium_coord` obtains a bracket whenever some species reacts and every reacting species is present -/
+theorem solve_bracket_defined (c0 : List α) (stoich : List Int) (hlen : c0.length = stoich.length)
+    (hne : ∃ n ∈ stoich, n ≠ 0)
+    (hact : ∀ j (hj : j < stoich.length) (hc : j < c0.length), stoich[j] ≠ 0 → 0 < c0[j]) :
+    ∃ lo up, solveBracket c0 stoich = .ok (lo, up) := by
+  unfold solveBracket
+  rw [if_neg (by simpa using hlen)]
+  set m := (List.zip stoich c0).filter fun p => p.1 ≠ 0 with hm
+  have key : ∀ p ∈ m, p.1 ≠ 0 ∧ 0 < p.2 := by
+    intro p hp
+    have hp' := List.mem_filter.mp hp
+    obtain ⟨t, ht, hpt⟩ := List.getElem_of_mem hp'.1
+    have ht' : t < stoich.length ∧ t < c0.length := by simpa using ht
+    have e : p = (stoich[t]'ht'.1, c0[t]'ht'.2) := by rw [← hpt]; simp
+    have hne' : p.1 ≠ 0 := by simpa using hp'.2
+    rw [e] at hne' ⊢
+    exact ⟨hne', hact t ht'.1 ht'.2 hne'⟩
+  obtain ⟨lo, up, h, _⟩ := rc_interval_defined (m.map (·.1)) (m.map (·.2)) (by simp)
+    (by
+      obtain ⟨n, hn, hn0⟩ := hne
+      obtain ⟨j, hj, rfl⟩ := List.getElem_of_mem hn
+      have hjc : j < c0.length := by omega
+      have : (stoich[j], c0[j]) ∈ m := by
+        rw [hm, List.mem_filter]
+        exact ⟨by rw [List.mem_iff_getElem]; exact ⟨j, by simp [hj, hjc], by simp⟩, by simpa using hn0⟩
+      intro hnil
+      have hmn : m = [] := by simpa using hnil
+      rw [hmn] at this
+      simp at this)
+    (by
+      intro n hn
+      obtain ⟨p, hp, rfl⟩ := List.mem_map.mp hn
+      exact (key p hp).1)
+    (by
+      intro v hv
+      obtain ⟨p, hp, rfl⟩ := List.mem_map.mp hv
+      exact (key p hp).2)
+  exact ⟨lo, up, h⟩
 /-- what `solve_equilibrium` returns, `c0 + rc·ν`, carries the element totals and the charge of `c0` whenever the reaction is
     balanced (`b·ν = 0` for the balance row `b`) — for every `rc`, converged or not. -/
 theorem extent_preserves_totals (rc : α) (b c0 : List α) (stoich : List Int) (hl : c0.length = stoich.length)
@@ -340,6 +434,37 @@ theorem extent_preserves_totals (rc : α) (b c0 : List α) (stoich : List Int) (
     dot b (extentState c0 stoich rc) = dot b c0 := by
   rw [dot_extent rc b c0 stoich hl, hb]; ring
 
+/-- **lin_internal_x0_spec** (`NumSysLin.internal_x0_cb`, the point the linear formulation really starts from: `(99·c₀ + dissolved(c₀))/100`).
+    It has one entry per substance, carries every linear invariant of `c₀` that the phase-transfer reactions conserve (elements and charge for a
+    balanced system) — so the solver starts ON the conservation hyperplane — and is non-negative whenever `c₀` and `dissolved(c₀)` are. -/
+theorem lin_internal_x0_spec (phases : List Nat) (rxns : List Rxn) (c0 x0 : List α)
+    (h : linInternalX0 phases rxns c0 = .ok x0) :
+    x0.length = c0.length ∧
+    (∀ b : List α, (∀ r ∈ rxns, hasPrecipitates phases r = .ok true →
+        dot b ((netStoich phases.length r).map fun n => ((n : Int) : α)) = 0) → dot b x0 = dot b c0) ∧
+    (∀ d, dissolved phases rxns c0 = .ok d → (∀ v ∈ c0, 0 ≤ v) → (∀ v ∈ d, 0 ≤ v) → ∀ v ∈ x0, 0 ≤ v) := by
+  obtain ⟨d, hd, hlen, rfl⟩ := linInternalX0_ok phases rxns c0 x0 h
+  refine ⟨by simp [hlen], fun b hb => ?_, fun d' hd' hc hdn v hv => ?_⟩
+  · rw [dot_convex 99 100 b c0 d hlen.symm, dissolved_dot phases b rxns c0 d hd hb]
+    ring
+  · rw [hd] at hd'
+    cases hd'
+    obtain ⟨i, hi, rfl⟩ := List.getElem_of_mem hv
+    simp only [List.length_zipWith] at hi
+    simp only [List.getElem_zipWith]
+    have h1 := hc _ (List.getElem_mem (l := c0) (n := i) (by omega))
+    have h2 := hdn _ (List.getElem_mem (l := d) (n := i) (by omega))
+    positivity
+
+/-- success characterisation: defined exactly when `dissolved(c₀)` is -/
+theorem lin_internal_x0_defined (phases : List Nat) (rxns : List Rxn) (c0 d : List α) (hd : dissolved phases rxns c0 = .ok d) :
+    ∃ x0, linInternalX0 phases rxns c0 = .ok x0 := by
+  unfold linInternalX0
+  simp [hd, bind, Except.bind, pure, Except.pure]
+
+/-- NaCl(s) ⇌ Na⁺ + Cl⁻, c₀ = (1, 2, 4): dissolved = (5, 6, 0), start = (99·c₀ + dissolved)/100 -/
+example : linInternalX0 (α := ℚ) [0, 0, 1] [⟨[(2, 1)], [(0, 1), (1, 1)], [], []⟩] [1, 2, 4] = .ok [26 / 25, 51 / 25, 99 / 25] := by
+  decide +kernel
 /-! ### the grid of initial compositions behind `EqSystem.solve(init, varied)` / `roots` -/
 
 /-- **varied_grid_point_spec** (`ReactionSystem.per_substance_varied`).  For a `varied` dict with distinct substance keys (given in
@@ -427,6 +552,115 @@ theorem zero_residual_and_sane_is_genuine (s : EqSys.EqSystem) (hs : EqSys.Homog
       simp
     exact (ChemModel.C07.log_zero_iff s hs prec small c p r hpos hK (by rw [hlogc]; exact hlog)).mp hzero
 
+/-- **zero_residual_and_sane_is_genuine_cfg.**  The same under EVERY reduction configuration `rref_equil × rref_preserv` (C07's
+    `numSysLinCfgF` / `numSysLogCfgF`, whose reduced blocks `redE`, `redP` are whatever sympy's row reduction returned, assumed row-equivalent
+    to the unreduced ones — `RowEquiv`, C07): homogeneous system, residual of the configured formulation zero at the returned state
+    (Lin at `c`, positive state and constants when the equilibrium block is reduced; Log at `y` with `c = exp y`, positive constants) and
+    `_result_is_sane` ⇒ `c ≥ 0`, `Q_i(c) = K_i` for every reaction as written, totals and charge of `c₀`. -/
+theorem zero_residual_and_sane_is_genuine_cfg (s : EqSys.EqSystem) (hs : EqSys.Homogeneous s) (prec : List Bool)
+    (small rtol : ℝ) (re rp : Bool) (redE redP : EqSys.Reduced ℝ) (c y p r : List ℝ)
+    (hE : re = true → EqSys.RowEquiv s.ns (EqSys.intMat (EqSys.netStoichs s)) ((EqSys.eqParamsOf s p).map Real.log) redE.rA redE.rb)
+    (hP : rp = true → EqSys.RowEquiv s.ns (EqSys.intMat (EqSys.compMat s)) (EqSys.totalsOf s p) redP.rA redP.rb)
+    (hres :
+      (EqSys.numSysLinCfgF s prec small re rp redE redP c p = .ok r ∧ (re = true → ∀ x ∈ c, 0 < x) ∧
+        (re = true → ∀ k ∈ EqSys.eqParamsOf s p, 0 < k)) ∨
+      (EqSys.numSysLogCfgF s prec small re rp redE redP y p = .ok r ∧ c = y.map Real.exp ∧ ∀ k ∈ EqSys.eqParamsOf s p, 0 < k))
+    (hzero : ∀ v ∈ r, v = 0)
+    (hsane : resultIsSane rtol (compsOf s) (EqSys.initConcsOf s p) c = .ok true) :
+    (∀ i (hi : i < c.length), 0 ≤ c[i]) ∧
+    (∀ νK ∈ (EqSys.netStoichs s).zip (EqSys.eqParamsOf s p), EqSys.quotient c νK.1 = νK.2) ∧
+    (∀ b ∈ EqSys.compMat s, EqSys.total b c = EqSys.total b (EqSys.initConcsOf s p)) := by
+  obtain ⟨_, _, _, hnn, _⟩ := (sane_spec rtol (compsOf s) (EqSys.initConcsOf s p) c).mp hsane
+  refine ⟨hnn, ?_⟩
+  have hE' : re = true → ∀ A, EqSys.stoichs s (EqSys.nonPrecipRids s prec) = .ok A →
+      EqSys.RowEquiv s.ns (EqSys.intMat A) ((EqSys.ksOf s prec small p).map Real.log) redE.rA redE.rb := by
+    intro hre A hA
+    rw [EqSys.stoichs_homog hs] at hA
+    cases hA
+    rw [EqSys.ksOf_homog hs]
+    exact hE hre
+  rcases hres with ⟨hlin, hy, hK⟩ | ⟨hlog, hc, hK⟩
+  · obtain ⟨A, hA, hiff⟩ := ChemModel.C07.rref_zero_iff_lin s prec small re rp redE redP c p r hlin hy
+      (by rw [EqSys.ksOf_homog hs]; exact hK) hE' hP
+    rw [EqSys.stoichs_homog hs] at hA
+    cases hA
+    rw [EqSys.ksOf_homog hs] at hiff
+    exact hiff.mp hzero
+  · obtain ⟨A, hA, hiff⟩ := ChemModel.C07.rref_zero_iff_log s prec small re rp redE redP y p r hlog
+      (by rw [EqSys.ksOf_homog hs]; exact hK) hE' hP
+    rw [EqSys.stoichs_homog hs] at hA
+    cases hA
+    rw [EqSys.ksOf_homog hs, ← hc] at hiff
+    exact hiff.mp hzero
+
+/-! ### ε-versions: what a run that stops with `|f| ≤ ε` (the solver's tolerance) delivers -/
+
+/-- **lin_residual_within_iff.**  Homogeneous system, non-zero constants.  Every entry of `NumSysLin.f(c, c₀ ++ K)` is within `ε` of zero
+    **iff** every reaction satisfies `|Q_i(c)/K_i − 1| ≤ ε` and every element total and the charge of `c` are within `ε` of those of `c₀`:
+    the residual of the linear formulation IS the relative error of `Q = K` and the absolute error of the totals. -/
+theorem lin_residual_within_iff (s : EqSys.EqSystem) (hs : EqSys.Homogeneous s) (prec : List Bool) (small ε : ℝ) (c p r : List ℝ)
+    (h : EqSys.numSysLinF s prec small c p = .ok r) (hK : ∀ k ∈ EqSys.eqParamsOf s p, k ≠ 0) :
+    (∀ v ∈ r, |v| ≤ ε) ↔
+      (∀ νK ∈ (EqSys.netStoichs s).zip (EqSys.eqParamsOf s p), |EqSys.quotient c νK.1 / νK.2 - 1| ≤ ε) ∧
+      (∀ b ∈ EqSys.compMat s, |EqSys.total b c - EqSys.total b (EqSys.initConcsOf s p)| ≤ ε) := by
+  obtain ⟨A, hA, _, _, hr⟩ := EqSys.numSysLinF_ok h
+  rw [EqSys.stoichs_homog hs] at hA
+  cases hA
+  rw [hr, EqSys.lin_abs_le_iff_core, EqSys.ksOf_homog hs]
+  constructor
+  · rintro ⟨h1, h2⟩
+    exact ⟨fun νK hνK => (h1 νK hνK).1 (hK _ (List.of_mem_zip hνK).2), h2⟩
+  · rintro ⟨h1, h2⟩
+    exact ⟨fun νK hνK => ⟨fun _ => h1 νK hνK, fun h0 => absurd h0 (hK _ (List.of_mem_zip hνK).2)⟩, h2⟩
+
+/-- **log_residual_within_iff.**  Homogeneous system, `c = exp y`.  Every entry of `NumSysLog.f(y, c₀ ++ K)` is within `ε` of zero **iff**
+    `|ln Q_i(c) − ln K_i| ≤ ε` for every reaction and every total of `c` is within `ε` of that of `c₀`. -/
+theorem log_residual_within_iff (s : EqSys.EqSystem) (hs : EqSys.Homogeneous s) (prec : List Bool) (small ε : ℝ) (y p r : List ℝ)
+    (h : EqSys.numSysLogF s prec small y p = .ok r) :
+    (∀ v ∈ r, |v| ≤ ε) ↔
+      (∀ νK ∈ (EqSys.netStoichs s).zip (EqSys.eqParamsOf s p),
+        |Real.log (EqSys.quotient (y.map Real.exp) νK.1) - Real.log νK.2| ≤ ε) ∧
+      (∀ b ∈ EqSys.compMat s, |EqSys.total b (y.map Real.exp) - EqSys.total b (EqSys.initConcsOf s p)| ≤ ε) := by
+  obtain ⟨A, hA, _, hr⟩ := EqSys.numSysLogF_ok h
+  rw [EqSys.stoichs_homog hs] at hA
+  cases hA
+  rw [hr, EqSys.log_abs_le_iff_core, EqSys.ksOf_homog hs]
+
+/-- **small_residual_and_sane_is_approximately_genuine.**  The ε-version of `zero_residual_and_sane_is_genuine` — the statement a real run
+    can satisfy.  Homogeneous system, parameters `p = c₀ ++ K`, returned state `c`; the last stage of the chain stopped with every residual
+    entry within `ε` (the solver tolerance) — for `NumSysLin` at `c`, for `NumSysSquare` at `y` with `c = y²`, for `NumSysLog` at `y` with
+    `c = exp y` — and `_result_is_sane(c₀, c)` holds.  Then every concentration is `≥ 0`, every total (elements, charge) of `c` is within `ε` of
+    that of `c₀`, and for every reaction: Lin / Square (constants `≠ 0`): `|Q/K − 1| ≤ ε`; Log (constants `> 0`): `e^{-ε} ≤ Q/K ≤ e^{ε}`.
+    These are the quantities the harness oracle bounds (by `0.25·tol·cond` resp. `100·tol·scale`). -/
+theorem small_residual_and_sane_is_approximately_genuine (s : EqSys.EqSystem) (hs : EqSys.Homogeneous s) (prec : List Bool)
+    (small rtol ε : ℝ) (c y p r : List ℝ)
+    (hres :
+      (EqSys.numSysLinF s prec small c p = .ok r ∧ ∀ k ∈ EqSys.eqParamsOf s p, k ≠ 0) ∨
+      (EqSys.numSysSquareF s prec small y p = .ok r ∧ c = (y.map fun yi => yi * yi) ∧ ∀ k ∈ EqSys.eqParamsOf s p, k ≠ 0) ∨
+      (EqSys.numSysLogF s prec small y p = .ok r ∧ c = y.map Real.exp ∧ ∀ k ∈ EqSys.eqParamsOf s p, 0 < k))
+    (hsmall : ∀ v ∈ r, |v| ≤ ε)
+    (hsane : resultIsSane rtol (compsOf s) (EqSys.initConcsOf s p) c = .ok true) :
+    (∀ i (hi : i < c.length), 0 ≤ c[i]) ∧
+    (∀ b ∈ EqSys.compMat s, |EqSys.total b c - EqSys.total b (EqSys.initConcsOf s p)| ≤ ε) ∧
+    (∀ νK ∈ (EqSys.netStoichs s).zip (EqSys.eqParamsOf s p),
+      |EqSys.quotient c νK.1 / νK.2 - 1| ≤ ε ∨
+      (0 < νK.2 ∧ Real.exp (-ε) ≤ EqSys.quotient c νK.1 / νK.2 ∧ EqSys.quotient c νK.1 / νK.2 ≤ Real.exp ε)) := by
+  obtain ⟨_, _, _, hnn, _⟩ := (sane_spec rtol (compsOf s) (EqSys.initConcsOf s p) c).mp hsane
+  refine ⟨hnn, ?_⟩
+  rcases hres with ⟨hlin, hK⟩ | ⟨hsq, hc, hK⟩ | ⟨hlog, hc, hK⟩
+  · obtain ⟨h1, h2⟩ := (lin_residual_within_iff s hs prec small ε c p r hlin hK).mp hsmall
+    exact ⟨h2, fun νK hνK => Or.inl (h1 νK hνK)⟩
+  · rw [EqSys.numSysSquareF_eq, ← hc] at hsq
+    obtain ⟨h1, h2⟩ := (lin_residual_within_iff s hs prec small ε c p r hsq hK).mp hsmall
+    exact ⟨h2, fun νK hνK => Or.inl (h1 νK hνK)⟩
+  · obtain ⟨h1, h2⟩ := (log_residual_within_iff s hs prec small ε y p r hlog).mp hsmall
+    rw [← hc] at h1 h2
+    refine ⟨h2, fun νK hνK => Or.inr ?_⟩
+    have hk : 0 < νK.2 := hK _ (List.of_mem_zip hνK).2
+    have hq : 0 < EqSys.quotient c νK.1 := by
+      rw [hc, ← EqSys.exp_total]; exact Real.exp_pos _
+    exact ⟨hk, EqSys.log_ratio_bound hq hk (h1 νK hνK)⟩
+
 /-- **warm_start_keeps_initial_totals.**  Whatever starting guess `x0` is passed to `root` / `_solve` (none, a previous solution, the
     solution of ANOTHER composition — titration / series walking), the parameter vector handed to the solver starts with the initial
     composition: the `init_concs` half that the residual functions read (`initConcsOf`, C07) is `init`, and the constants half is the
@@ -475,6 +709,21 @@ example : equilibriumResidualMulti (α := ℚ) [1 / 4, 1 / 8] [1, 1 / 4, 1 / 2, 
 /-- activity product γ(c) = [B]: residual K − Q·γ -/
 example : equilibriumResidualWith (α := ℚ) (fun c => eqQuotient c [0, 1, 0]) (1 / 4) [1, 1 / 4, 1 / 2] [-1, 1, 1] (1 / 2)
     = .ok (1 / 4) := by decide +kernel
+
+/-- the hypotheses of the ε-theorems are satisfiable over ℝ: for C07's water system `NumSysLin.f` returns at every well-shaped state without
+    zero entries (C07 `lin_defined`), e.g. at (55, 1e-7, 1e-7) with c₀ = (55 + 1e-7, 0, 0) and K = 1e-14/55 -/
+example : ∃ r, EqSys.numSysLinF C07.water [] (0 : ℝ) ([55, 1 / 10 ^ 7, 1 / 10 ^ 7] : List ℝ)
+    ([55 + 1 / 10 ^ 7, 0, 0, 1 / (55 * 10 ^ 14)] : List ℝ) = .ok r := by
+  have hs : EqSys.Homogeneous C07.water := by
+    intro kv hkv
+    simp [C07.water] at hkv
+    rcases hkv with rfl | rfl | rfl <;> rfl
+  apply C07.lin_defined C07.water hs [] (0 : ℝ)
+  · rfl
+  · decide
+  · intro x hx
+    simp only [List.mem_cons, List.not_mem_nil, or_false] at hx
+    rcases hx with rfl | rfl | rfl <;> norm_num
 
 /-- water / H⁺ / OH⁻: bounds (H: 2·1 + 1/2 = 5/2, O: 1) and a sane / an insane vector -/
 example : upperConcBounds (α := ℚ) [[(1, 2), (8, 1)], [(0, 1), (1, 1)], [(0, -1), (1, 1), (8, 1)]] [1, 1 / 2, 0]
